@@ -153,7 +153,7 @@ _add(
             ("<Statement as PrettyPrint>::pretty_print", "DefineFunction", "return_type_annotation"): _RT,
             ("<Statement as PrettyPrint>::pretty_print", "DefineDerivedUnit", "type_annotation"): _RT,
         },
-        min_arms=41,
+        min_arms=36,
     )
 )
 
